@@ -43,16 +43,23 @@ KIND_AID = {"cam": 36, "vam": 638, "denm": 37, "other": 99}
 
 
 class World:
-    def __init__(self, rng, n, apps=None):
+    def __init__(self, rng, n, apps=None, groups=None):
         p = self.pki = sc.PKI()
         now = sc.its_now_s(T0)
         live = dict(start=now - 1000, duration=("hours", 100))
         self.root = p.root("root", **live)
-        self.aa = p.issue(self.root, "aa", issue=[sc.perm_explicit([36, 37, 638, 99], 1)], **live)
+        # the AA's issuing permissions are split over 1-3 groups in random order (sometimes plus `all`)
+        if groups is None:
+            issue = sc.split_groups([36, 37, 638, 99], rng, 1, with_all=rng.random() < 0.15)
+        else:
+            issue = [sc.perm_all(1) if kind == "all" else sc.perm_explicit(ps, 1) for kind, ps in groups]
+        self.aa = p.issue(self.root, "aa", issue=issue, **live)
         self.ats = []
         for k in range(n):
             app = apps[k] if apps else rng.choice([[36, 37, 638, 99], [36, 37, 99], [36, 37], [638, 37, 99]])
             self.ats.append(p.issue(self.aa, app=app, **live))
+        self.groups = [(g["subjectPermissions"][0], [e["psid"] for e in (g["subjectPermissions"][1] or [])])
+                       for g in self.aa.certificate["toBeSigned"]["certIssuePermissions"]]
         self.apps = [[e["psid"] for e in a.certificate["toBeSigned"]["appPermissions"]] for a in self.ats]
         self.A = sc.Abs()
         self.A.register_backend(p.backend)
@@ -154,7 +161,7 @@ class Sim:
         self.ctx.cover(f"join_preloaded_{len(pre)}")
 
     def case(self):
-        return {"kind": "scenario", "id": self.sid, "n": self.n, "join": self.join, "pre": self.pre, "apps": self.w.apps,
+        return {"kind": "scenario", "id": self.sid, "n": self.n, "join": self.join, "pre": self.pre, "apps": self.w.apps, "groups": self.w.groups,
                 "events": list(self.events)}
 
     def emit(self, k, kind, payload):
@@ -285,8 +292,24 @@ class Sim:
                     self.pending[(r, s_)] = "await-S-cam"
 
 
+def honest_world(ctx, w, sim):
+    """the tickets were obtained from the issuing API with ITS-AIDs inside the UNION of the AA's permission groups:
+    they must come back signed and verifiable (independent chain checker + Certificate.verify)"""
+    roots = {sc.hid8(w.root.certificate): w.root.certificate}
+    cas = {sc.hid8(w.aa.certificate): w.aa.certificate}
+    for k, at in enumerate(w.ats):
+        ok, why = sc.chain_ok(at.certificate, roots, cas)
+        ctx.evals()
+        if not ok or not at.verify(w.pki.backend):
+            ctx.violation(f"honest ticket of station {k} for ITS-AIDs {w.apps[k]} under an AA with permission groups {w.groups} "
+                          f"is refused by the issuing API / Certificate.verify ({why}): its holder cannot sign, nobody accepts it",
+                          sim.case())
+    ctx.cover(f"aa_groups_{len(w.groups)}{'_all' if any(k == 'all' for k, _ in w.groups) else ''}")
+
+
 def run_scenario(ctx, w, clock, n, n_events, sid, script=None):
     sim = Sim(ctx, w, clock, n, sid)
+    honest_world(ctx, w, sim)
     rng = ctx.rng
     t = 0
     for e in range(n_events):
@@ -406,9 +429,10 @@ def replay(ctx, obj):
                 ctx.model_ok = False
                 rng = random.Random(1)
                 n = case["n"]
-                w = World(rng, n, case.get("apps"))
+                w = World(rng, n, case.get("apps"), case.get("groups"))
                 sim = Sim(ctx, w, clock, n, "replay")
                 sim.join, sim.pre = case["join"], case["pre"]
+                honest_world(ctx, w, sim)
                 for (t, k, kind, plen) in case["events"]:
                     clock.ms = T0 + t
                     for j in range(n):
